@@ -312,6 +312,8 @@ static int add_san(GENERAL_NAMES *gens, char *tok) {
    tlscreatectx() from a CA, a server certificate and key generated once per process (handed over as /proc/self/fd paths); the peer
    connects from <src> with a certificate made from the cn=/san= tokens and signed by that CA (or, ca=other, by one nobody trusts). */
 #include <sys/mman.h>
+extern time_t h_clock(void);
+extern void h_clock_set(time_t t);
 extern struct list *h_clconfs_swap(struct list *n);
 extern void h_tlsconn_reset(void);
 extern const char *h_tlsconn_attributed(void);
@@ -540,6 +542,154 @@ static int op_tlsconn(int argc, char **argv, FILE *out) {
     return 1;
 }
 
+/* ---- tlsdial: the proxy as TLS client of a home server (C15 for servers, in place) ----
+   tlsdial [ca=other] cn=.. san=..  | servername=.. namecheck= cncheck= terms=.. [realm=<hex>]
+   A TLS server on a loopback port presents a certificate made from the cn=/san= tokens (signed by the CA the proxy trusts, or by
+   another); the server block (built by the real addhostport/resolvehostports/addmatchcertattr, host 127.0.0.1) is connected to by the
+   REAL tlsconnect with a time limit of a few seconds: it returns 1 when the connection - handshake, chain, certificate conditions of
+   the block against the host connected to - is up, 0 when it gave up. */
+extern int h_tlsconnect(struct server *server, int timeout);
+static volatile int h_dial_stop;
+static int h_dial_lsock = -1;
+static X509 *h_dial_cert;
+static EVP_PKEY *h_dial_key;
+static void *h_dial_server(void *arg) {
+    SSL_CTX *ctx = SSL_CTX_new(TLS_server_method());
+    (void)arg;
+    SSL_CTX_use_certificate(ctx, h_dial_cert);
+    SSL_CTX_use_PrivateKey(ctx, h_dial_key);
+    SSL_CTX_set_num_tickets(ctx, 0);
+    while (!h_dial_stop) {
+        struct pollfd pf = {h_dial_lsock, POLLIN, 0};
+        int s;
+        SSL *ssl;
+        char tmp[16];
+        if ((poll)(&pf, 1, 100) <= 0)
+            continue;
+        s = accept(h_dial_lsock, NULL, NULL);
+        if (s < 0)
+            continue;
+        ssl = SSL_new(ctx);
+        SSL_set_fd(ssl, s);
+        if (SSL_accept(ssl) == 1)
+            SSL_read(ssl, tmp, sizeof(tmp)); /* until the proxy closes the connection */
+        SSL_free(ssl);
+        close(s);
+    }
+    SSL_CTX_free(ctx);
+    ERR_clear_error();
+    return NULL;
+}
+static int op_tlsdial(int argc, char **argv, FILE *out) {
+    struct clsrvconf conf;
+    struct server srv;
+    struct sockaddr_in a;
+    socklen_t al = sizeof(a);
+    pthread_t th;
+    X509 *x;
+    X509_NAME *nm;
+    char *v, *tok, *save, *tr, *hostsrc[2], hostbuf[64];
+    int g0, g1, other, len, one = 1, r;
+    uint8_t *bb;
+    long t0;
+    if (argc < 3 || !h_tlsconn_init())
+        return 0;
+    g0 = 0;
+    g1 = group_end(argc, argv, g0);
+    other = (v = kv(g1 - g0, argv + g0, "ca")) && !strcmp(v, "other");
+    x = X509_new();
+    X509_set_version(x, 2);
+    ASN1_INTEGER_set(X509_get_serialNumber(x), 78);
+    X509_gmtime_adj(X509_getm_notBefore(x), -3600);
+    X509_gmtime_adj(X509_getm_notAfter(x), 3600L * 24 * 365);
+    X509_set_pubkey(x, h_cli_key);
+    nm = X509_get_subject_name(x);
+    X509_NAME_add_entry_by_txt(nm, "O", MBSTRING_ASC, (const unsigned char *)"verif", -1, -1, 0);
+    if ((v = kv(g1 - g0, argv + g0, "cn")) && strcmp(v, "."))
+        for (tok = strtok_r(v, ",", &save); tok; tok = strtok_r(NULL, ",", &save)) {
+            bb = hx(tok, &len);
+            X509_NAME_add_entry_by_NID(nm, NID_commonName, V_ASN1_UTF8STRING, bb, len, -1, 0);
+            (free)(bb);
+        }
+    if ((v = kv(g1 - g0, argv + g0, "san")) && strcmp(v, "none")) {
+        GENERAL_NAMES *gens = sk_GENERAL_NAME_new_null();
+        if (strcmp(v, "."))
+            for (tok = strtok_r(v, ",", &save); tok; tok = strtok_r(NULL, ",", &save))
+                if (!add_san(gens, tok)) {
+                    fputs("bad-san", out);
+                    return 1;
+                }
+        X509_add1_ext_i2d(x, NID_subject_alt_name, gens, 0, 0);
+        GENERAL_NAMES_free(gens);
+    }
+    X509_set_issuer_name(x, X509_get_subject_name(other ? h_other_cert : h_ca_cert));
+    if (!X509_sign(x, other ? h_other_key : h_ca_key, EVP_sha256()))
+        return 0;
+    if (g1 >= argc)
+        return 0;
+    g0 = g1 + 1;
+    g1 = argc;
+    /* the home server's listener */
+    h_dial_lsock = socket(AF_INET, SOCK_STREAM, 0);
+    memset(&a, 0, sizeof(a));
+    a.sin_family = AF_INET;
+    a.sin_addr.s_addr = htonl(INADDR_LOOPBACK);
+    setsockopt(h_dial_lsock, SOL_SOCKET, SO_REUSEADDR, &one, sizeof(one));
+    if (h_dial_lsock < 0 || bind(h_dial_lsock, (struct sockaddr *)&a, sizeof(a)) || listen(h_dial_lsock, 8) || getsockname(h_dial_lsock, (struct sockaddr *)&a, &al))
+        return 0;
+    /* the server block */
+    memset(&conf, 0, sizeof(conf));
+    memset(&srv, 0, sizeof(srv));
+    conf.name = "home";
+    conf.type = RAD_TLS;
+    conf.tlsconf = h_tlsconfs[0];
+    conf.certnamecheck = (v = kv(g1 - g0, argv + g0, "namecheck")) ? atoi(v) : 1;
+    conf.certcncheck = (v = kv(g1 - g0, argv + g0, "cncheck")) ? atoi(v) : 0;
+    if ((v = kv(g1 - g0, argv + g0, "servername")) && strcmp(v, "."))
+        conf.servername = hxstr(v);
+    snprintf(hostbuf, sizeof(hostbuf), "127.0.0.1:%d", ntohs(a.sin_port));
+    hostsrc[0] = hostbuf;
+    hostsrc[1] = NULL;
+    if (!addhostport(&conf.hostports, hostsrc, "2083", 0) || !resolvehostports(conf.hostports, AF_UNSPEC, SOCK_STREAM))
+        return 0;
+    if ((v = kv(g1 - g0, argv + g0, "terms")) && strcmp(v, "."))
+        for (tok = strtok_r(v, ";", &save); tok; tok = strtok_r(NULL, ";", &save)) {
+            char *t = hxstr(tok);
+            if (!addmatchcertattr(&conf, t)) {
+                fputs("bad-term", out);
+                return 1;
+            }
+            (free)(t);
+        }
+    srv.conf = &conf;
+    srv.sock = -1;
+    if ((v = kv(g1 - g0, argv + g0, "realm")) && strcmp(v, "."))
+        srv.dynamiclookuparg = hxstr(v);
+    pthread_mutex_init(&srv.lock, NULL);
+    pthread_mutex_init(&srv.newrq_mutex, NULL);
+    pthread_cond_init(&srv.newrq_cond, NULL);
+    h_dial_cert = x;
+    h_dial_key = h_cli_key;
+    h_dial_stop = 0;
+    if (pthread_create(&th, NULL, h_dial_server, NULL))
+        return 0;
+    tr = h_transcript_take();
+    (free)(tr);
+    t0 = (long)h_clock();
+    r = h_tlsconnect(&srv, 5);
+    h_dial_stop = 1;
+    pthread_join(th, NULL);
+    close(h_dial_lsock);
+    h_dial_lsock = -1;
+    ERR_clear_error();
+    h_clock_set(t0); /* the pacing of the attempts moved the virtual clock on: an op on its own, the clock goes back */
+    tr = h_transcript_take();
+    fprintf(out, "tlsdial ret=%d ##%s", r, tr);
+    (free)(tr);
+    X509_free(x);
+    return 1;
+}
+
 int h_tls_op(const char *op, int argc, char **argv, FILE *out) {
     struct clsrvconf conf;
     struct hostportres hpc, *hpcp = NULL;
@@ -552,6 +702,8 @@ int h_tls_op(const char *op, int argc, char **argv, FILE *out) {
         return op_tlsstream(argc, argv, out);
     if (!strcmp(op, "tlsconn"))
         return op_tlsconn(argc, argv, out);
+    if (!strcmp(op, "tlsdial"))
+        return op_tlsdial(argc, argv, out);
     if (strcmp(op, "vcert"))
         return 0;
     memset(&conf, 0, sizeof(conf));
